@@ -44,7 +44,10 @@ SPEC = {
                  "C04_calls_mapdb", "C04_calls_flushkv", "C04_calls_debug", "C04_calls_kvstore_utils", "C04_skeleton_types"],
     "trusted_base": [
         "hand-written model Hive/Model/KV.lean of kvstore/mapdb (+ flushkv, debug wrappers), tied to the working tree by "
-        "line-by-line differential execution (harness/c04) on every run",
+        "line-by-line differential execution (harness/c04) on every run - answers and, below a recording store, the forwarded calls / "
+        "debug callbacks - and by the regenerated call lists and type facts (Hive/Gen/C04_Calls.lean, C04_Skel.lean; obligations C04_calls_*)",
+        "the memory model Hive/Model/KVHeap.lean is tied by its erasure (= the value model the driver runs, with the harness scribbling over "
+        "every buffer) and by the pinned ConcatBytes call sites; it is not driven line by line itself",
         "specification Hive/Spec/KV.lean (one key-sorted list keyed by realm||key) - this is what 'ordered-map contract' means",
         "Go toolchain, compiled Lean driver drv_c04",
     ],
@@ -57,7 +60,12 @@ SPEC = {
         "kvstore.Copy / CopyBatched (Hive/Model/KVCopy.lean: Iterate snapshot + Set per entry / batches of n with a final commit), "
         "kvstore.GetIterDirection, utils.KeyPrefixUpperBound, utils.CopyBytes, byteutils.ConcatBytes(ToString); two store trees = a pair "
         "of independent model instances",
-        "NOT modelled: the debug callback's arguments; an iteration direction other than forward/backward (GetIterDirection panics); "
+        "what the wrappers forward (Hive/Model/KVTrace.lean): debug callbacks by filter / nil callback with command and arguments, the calls "
+        "reaching the wrapped store in order, flushkv's Flush after each successful mutation, WithExtendedRealm = Realm + WithRealm; "
+        "error paths with an injected Flush failure (Hive/Model/KVFault.lean: flushAfterMutation, Copy / CopyBatched stopping at the first "
+        "error); an unknown iteration direction (panic, nothing changes); mapdb with memory (Hive/Model/KVHeap.lean: which buffers are "
+        "copied, which are kept) for the private-copy clause",
+        "NOT modelled: "
         "mutation of a buffer held by a batch that is still going to be committed, and of the realm buffer passed to WithRealm "
         "(both are kept by reference in the code - measured on every run, evidence coverage.extra observation_* - the statement "
         "does not speak about them); after a final Commit every batch value buffer is scribbled, through every wrapper stack "
@@ -82,9 +90,20 @@ SPEC = {
                 "independent sorted-map oracle in Go; every second history runs over two store trees with Copy/CopyBatched (batch sizes around the "
                 "view size) between them; a pure-helper stream (KeyPrefixUpperBound on all 781 prefixes of length <= 4 over {00,01,7f,fe,ff}, "
                 "ConcatBytes/ConcatBytesToString incl. aliasing with arguments that have spare capacity, CopyBytes, GetIterDirection) is compared "
-                "with the Lean definitions and with Go reference oracles.",
+                "with the Lean definitions and with Go reference oracles. Extension round: the side effects of the wrappers - debug callbacks "
+                "(by filter, nil callback, command constant, arguments) and the calls reaching the wrapped store in order, incl. flushkv's Flush after "
+                "each successful mutation - have a model (KVTrace) with a normal-form theorem for every stack (C04_wrapper_trace, C04_debug_reports, "
+                "C04_flush_follows_mutation, C04_trace_tables_agree) and are observed below a recording store in two of three trees; the error paths "
+                "(a Flush that fails other than with ErrStoreClosed: flushAfterMutation, Copy / CopyBatched stopping at the first error) have a model "
+                "(KVFault; C04_fault_free_is_model, C04_flush_error_surfaces, C04_copy_stops_at_first_error) and are injected by the recording store; "
+                "C04_closed_forever, C04_iterate_backward_is_reverse; the private-copy clause is proved over a model of mapdb with memory (KVHeap: "
+                "C04_private_inv_reachable, C04_caller_writes_do_not_reach_the_store, C04_set_stores_a_copy, C04_get_returns_a_private_copy, "
+                "C04_commit_stores_copies); the calls every function of the anchored kvstore files makes (source order, arguments by parameter "
+                "position) and the declared types are regenerated on every run and pinned (C04_calls_mapdb/_flushkv/_debug/_kvstore_utils, "
+                "C04_skeleton_types). Failing histories are minimised by delta debugging before they are reported; every request runs under a watchdog.",
         "note": "Trusted: Lean kernel; the hand-written model (validated differentially on every run, not generated from the source); "
-                "the specification file. The private-copy clause is checked by the tie only (the model has value semantics). "
+                "the specification file. The private-copy clause is proved over the memory model KVHeap, whose allocation sites are pinned by the "
+                "regenerated call lists; the driver runs its erasure (value semantics) against a harness that scribbles over every buffer. "
                 "Concurrency is C05.",
         "technique": "Lean 4 refinement proof (model -> ordered-map spec, lifted by induction to all histories) + differential correspondence",
     },
